@@ -567,3 +567,72 @@ Proof.
   split; [intro R; apply RFC3339_shape in R; vm_compute in R; discriminate|].
   apply rfc3339_ok_spec. vm_compute. reflexivity.
 Qed.
+
+(* ---------- the created value Pack writes itself always passes its own validation ---------- *)
+Lemma dig_of n : n < 10 -> dig (48 + n).
+Proof. intro L. unfold dig, is_digit. apply andb_true_iff. split; apply N.leb_le; lia. Qed.
+
+Lemma add48 x : 48 + x - 48 = x.
+Proof. rewrite N.add_comm. apply N.add_sub. Qed.
+
+Lemma two_dig2 n : n < 100 -> two (48 + n / 10) (48 + n mod 10) = n.
+Proof.
+  intro L. unfold two, dval. rewrite !add48.
+  rewrite (N.div_mod n 10) at 3 by discriminate. rewrite N.mul_comm. reflexivity.
+Qed.
+
+Lemma four_dig4 n : n < 10000 ->
+  four (48 + n / 1000) (48 + (n / 100) mod 10) (48 + (n / 10) mod 10) (48 + n mod 10) = n.
+Proof.
+  intro L. unfold four, dval. rewrite !add48.
+  pose proof (N.div_mod n 10 ltac:(discriminate)) as E1.
+  pose proof (N.div_mod (n / 10) 10 ltac:(discriminate)) as E2.
+  pose proof (N.div_mod (n / 100) 10 ltac:(discriminate)) as E3.
+  rewrite N.div_div in E2 by discriminate. change (10 * 10) with 100 in E2.
+  assert (E4 : n / 100 / 10 = n / 1000) by (rewrite N.div_div by discriminate; reflexivity).
+  rewrite E4 in E3.
+  set (a := n / 1000) in *. set (b' := (n / 100) mod 10) in *. set (c := (n / 10) mod 10) in *.
+  set (d := n mod 10) in *. set (q1 := n / 10) in *. set (q2 := n / 100) in *. lia.
+Qed.
+
+Theorem format_accepted y mo d h mi s :
+  civil_ok y mo d h mi s = true -> rfc3339_ok (format_rfc3339_utc y mo d h mi s) = true.
+Proof.
+  unfold civil_ok. intro C. repeat (apply andb_true_iff in C as [C ?]).
+  repeat match goal with Hx : (_ <=? _) = true |- _ => apply N.leb_le in Hx end.
+  assert (Dm : days_in mo y <= 31).
+  { unfold days_in. destruct (mo =? 2); [destruct (is_leap y); lia|].
+    destruct ((mo =? 4) || (mo =? 6) || (mo =? 9) || (mo =? 11)); lia. }
+  apply rfc3339_ok_complete. unfold format_rfc3339_utc, dig4, dig2.
+  exists (48 + y / 1000), (48 + (y / 100) mod 10), (48 + (y / 10) mod 10), (48 + y mod 10),
+         (48 + mo / 10), (48 + mo mod 10), (48 + d / 10), (48 + d mod 10), 84,
+         (48 + h / 10), (48 + h mod 10), (48 + mi / 10), (48 + mi mod 10), (48 + s / 10), (48 + s mod 10),
+         [], [90].
+  split; [reflexivity|].
+  assert (M10 : forall n, n mod 10 < 10) by (intro n; apply N.mod_lt; lia).
+  assert (D10 : forall n, n < 100 -> n / 10 < 10) by (intros n Hn; apply N.div_lt_upper_bound; lia).
+  split.
+  { repeat constructor; apply dig_of; auto; try (apply D10; lia).
+    apply N.div_lt_upper_bound; lia. }
+  split; [simpl; auto|].
+  rewrite !two_dig2 by lia. rewrite four_dig4 by lia.
+  repeat split; try lia; [left; reflexivity | left; exists 90; simpl; auto].
+Qed.
+
+(* "a created timestamp filled in": with the clock's value written as Pack writes it, no premise about
+   the timestamp is left *)
+Theorem ok_created_clock (marshal : manifest -> str) (H : str -> str)
+        (H_empty : H empty_json = empty_json_digest) f tc fa s at_ o y mo d h mi sec s' dd m :
+  civil_ok y mo d h mi sec = true ->
+  pack marshal H f tc fa s at_ o (format_rfc3339_utc y mo d h mi sec) = (s', Ok dd m) ->
+  (exists v, ann_get (created_key f) (m_ann m) = Some v /\ rfc3339_ok v = true /\ RFC3339 v /\
+             (ann_get (created_key f) (o_ann o) = Some v \/
+              ann_get (created_key f) (o_ann o) = None /\ v = format_rfc3339_utc y mo d h mi sec)) /\
+  (forall k, k <> created_key f -> ann_get k (m_ann m) = ann_get k (o_ann o)) /\
+  d_ann dd = m_ann m.
+Proof.
+  intros C P.
+  destruct (ok_created marshal H H_empty _ _ _ _ _ _ _ _ _ _ (format_accepted _ _ _ _ _ _ C) P)
+    as ((v & G & R & W) & O & D).
+  split; [|split; assumption]. exists v. repeat split; auto. now apply accepted_is_rfc3339.
+Qed.
